@@ -2,6 +2,8 @@
 from __future__ import annotations
 
 import json
+import os
+import time
 from typing import List, Optional, Tuple
 
 from harness.lib.core import VERIF, Ctx, lean_lock, run_driver, shrink_ops
@@ -42,7 +44,7 @@ MANIFEST = {
     "design_ref": "5/C16",
 }
 MODULES = ["PrimaiteModel.Props.C16", "PrimaiteModel.Props.C16Conn", "PrimaiteModel.Props.C16Transport",
-           "PrimaiteModel.Props.C16Timeout", "PrimaiteModel.Props.C16Admin"]
+           "PrimaiteModel.Props.C16Timeout", "PrimaiteModel.Props.C16Admin", "PrimaiteModel.Props.C16Local"]
 EXE = "drv_c16"
 
 
@@ -117,6 +119,43 @@ def _runtime_inventory(ctx: Ctx):
                editors == ["add_user", "authenticate_user", "change_user_password", "disable_user", "enable_user"], str(editors))
 
 
+def _sample(rng, items: list, k: int):
+    """`k` of the items (all when k >= len), seeded, in their original order, with their original index"""
+    idx = list(range(len(items)))
+    if k < len(items):
+        idx = sorted(rng.shuffle(idx)[:k])
+    return [(i, items[i]) for i in idx]
+
+
+def _run_impl_chunk(chunk: List[dict]):
+    return [rig.run_impl(c) for c in chunk]
+
+
+def _run_impl_all(case_list: List[dict]):
+    """The implementation side of every trace.  Building the real nodes is > 90 % of the cost of a trace (pydantic construction of
+    ~13 software objects per node), and a third of that is the cyclic garbage collector walking the freshly built object graphs:
+    collect rarely while the rig runs, and spread the traces over a few forked workers (C16_WORKERS, default 3; results are
+    position-ordered, every trace is independent, so the outcome does not depend on the scheduling)."""
+    import gc
+    import multiprocessing as mp
+    workers = max(1, int(os.environ.get("C16_WORKERS", "3")))
+    old = gc.get_threshold()
+    gc.collect()
+    gc.freeze()
+    gc.set_threshold(50000, 20, 20)
+    try:
+        if workers == 1 or len(case_list) < 200:
+            return _run_impl_chunk(case_list)
+        size = 64
+        chunks = [case_list[i:i + size] for i in range(0, len(case_list), size)]
+        with mp.get_context("fork").Pool(workers) as pool:
+            out = pool.map(_run_impl_chunk, chunks, chunksize=1)
+        return [r for ch in out for r in ch]
+    finally:
+        gc.set_threshold(*old)
+        gc.unfreeze()
+
+
 def run(ctx: Ctx):
     with lean_lock():
         ctx.extract(x_session.GEN_NAME, x_session.emit)
@@ -163,14 +202,21 @@ def run(ctx: Ctx):
     # the session core of the first family once more on the routed topology (nothing blocked: must behave like the switch)
     for k, c in enumerate(rig.exhaustive_cases(dict(base_cfg, topo="routed"), [login], ctx.scale(2, 3), core)):
         cases.append((f"exhcore-routed:{k}", c))
+    # the local command path: every sequence of three operations of the local alphabet (quick: a seeded sample of the largest families)
+    fam_rng = ctx.rng.fork("families")
+    local_all = list(rig.exhaustive_cases(base_cfg, rig.LOCAL_PREFIX, 3, rig.local_alphabet()))
+    for k, c in _sample(fam_rng, local_all, len(local_all)):
+        cases.append((f"exhlocal:{k}", c))
     rng = ctx.rng.fork("sess")
     for k in range(ctx.scale(500, 6000)):
         cases.append((f"gen:{k}", rig.gen_case(rng, max_ops=ctx.scale(30, 60))))
 
     # implementation side, then ONE driver run for all cases
     impl_all, lines_all, bounds, aux = [], [], [], []
-    for name, case in cases:
-        impl, snaps, stats = rig.run_impl(case)
+    t_impl = time.time()
+    results = _run_impl_all([c for _, c in cases])
+    ctx.cov["impl_side_wall_s"] = round(time.time() - t_impl, 1)
+    for (name, case), (impl, snaps, stats) in zip(cases, results):
         lines = rig.model_lines(case)
         bounds.append((len(lines_all), len(lines)))
         lines_all += lines
